@@ -1479,14 +1479,14 @@ theorem reconnect_after_loss (cfg : Cfg) (s : State) (c : Conn) (hs : s.task ≠
     unfold stepK
     simp [hms]
 
-/-- (2) a refused attempt is retried after one second -/
+/-- (2) a refused attempt is retried after the retry delay -/
 theorem retry_after_refusal (cfg : Cfg) (s : State) (hs : s.task = .connecting) :
-    (step cfg s .refuse).1.task = .sleeping (s.now + 1000) ∧
-    ∀ ms, s.now + 1000 ≤ s.now + ms →
+    (step cfg s .refuse).1.task = .sleeping (s.now + cfg.retryDelay) ∧
+    ∀ ms, s.now + cfg.retryDelay ≤ s.now + ms →
       (step cfg (step cfg s .refuse).1 (.advance ms)).2 = [.attempt] ∧
       (step cfg (step cfg s .refuse).1 (.advance ms)).1.task = .connecting := by
   have hns : s.task ≠ .notStarted := by rw [hs]; intro h; cases h
-  have e1 : step cfg s .refuse = ({ s with task := .sleeping (s.now + 1000) }, []) := by
+  have e1 : step cfg s .refuse = ({ s with task := .sleeping (s.now + cfg.retryDelay) }, []) := by
     unfold step; rw [kick_of_started hns]; unfold stepK; simp [hs]
   rw [e1]
   refine ⟨rfl, fun ms hms => ?_⟩
